@@ -1,0 +1,97 @@
+//go:build verif
+
+// Contracts for deductive verification (comment-only; read by /verif/govc, never compiled into the product).
+// The generic bodies are verified as they are, with the type parameters K and V as abstract sorts.
+
+package gera
+
+// ---------------------------------------------------------------------------------------------------------
+// C14: within one kind of variables the definition nearest to the role wins over those of its ancestors, and an
+// empty value IS a definition (presence in the map counts, not non-emptiness).
+//
+// What a hierarchy defines is a recursive function of the heap: the level's own entry if there is one (whatever its
+// value), otherwise what the parent hierarchy defines. WrapMap is the only implementation of Map, so the dynamic
+// value of a non-nil Map is a *WrapMap. One level of the recursion is proved per method body; calls through the Map
+// interface use the interface-level contract, which every method of the only implementation is proved against.
+
+// Flattened / FlattenedParent / WrappedAndFlattened / FlattenStack: a level whose own map is nil contributes nothing
+//@ ghost fuel func flatHas(m Map, k K) bool = m != nil && m.(*WrapMap) != nil && ((k in m.(*WrapMap).theMap) || flatHas(m.(*WrapMap).parent, k))
+//@ ghost fuel func flatVal(m Map, k K) V = if (k in m.(*WrapMap).theMap) then m.(*WrapMap).theMap[k] else flatVal(m.(*WrapMap).parent, k)
+
+// Get / Has: a level whose own map is nil answers "not defined" without consulting its parent
+//@ ghost fuel func getHas(m Map, k K) bool = m != nil && m.(*WrapMap) != nil && m.(*WrapMap).theMap != nil && ((k in m.(*WrapMap).theMap) || getHas(m.(*WrapMap).parent, k))
+//@ ghost fuel func getVal(m Map, k K) V = if (k in m.(*WrapMap).theMap) then m.(*WrapMap).theMap[k] else getVal(m.(*WrapMap).parent, k)
+
+//@ func (m Map[K, V]) Get(key K) (value V, ok bool)
+//@   noverify
+//@   pure
+//@   ensures ok == getHas(m, key)
+//@   ensures ok ==> value == getVal(m, key)
+
+//@ func (m Map[K, V]) Flattened() (r map[K]V, err error)
+//@   noverify
+//@   modifies nothing
+//@   ensures r != nil ==> fresh(r)
+//@   ensures err == nil ==> forall k K :: flatHas(m, k) ==> (k in r)
+//@   ensures err == nil ==> forall k K :: (k in r) ==> flatHas(m, k)
+//@   ensures err == nil ==> forall k K :: (k in r) ==> r[k] == flatVal(m, k)
+
+// Get: own entry if present (whatever its value), otherwise whatever the parent hierarchy defines
+//@ func (w *WrapMap[K, V]) Get(key K) (value V, ok bool)
+//@   property C14
+//@   pure
+//@   ensures ok == getHas(iface(w), key)
+//@   ensures ok ==> value == getVal(iface(w), key)
+//@   ensures w != nil && w.theMap != nil && (key in w.theMap) ==> ok && value == w.theMap[key]
+//@   ensures w != nil && w.theMap != nil && !(key in w.theMap) && w.parent == nil ==> !ok
+
+//@ func (w *WrapMap[K, V]) Has(key K) (ok bool)
+//@   property C14
+//@   pure
+//@   ensures ok == getHas(iface(w), key)
+
+// Set / Del touch exactly one key of this level's own map
+//@ func (w *WrapMap[K, V]) Set(key K, value V) (ok bool)
+//@   property C14
+//@   modifies entries(w.theMap)
+//@   ensures ok == (w != nil && w.theMap != nil)
+//@   ensures ok ==> (key in w.theMap) && w.theMap[key] == value
+//@   ensures ok ==> forall k K :: k != key ==> (k in w.theMap) == old(k in w.theMap) && w.theMap[k] == old(w.theMap[k])
+
+//@ func (w *WrapMap[K, V]) Del(key K) (ok bool)
+//@   property C14
+//@   modifies entries(w.theMap)
+//@   ensures ok == (w != nil && w.theMap != nil)
+//@   ensures ok ==> !(key in w.theMap)
+//@   ensures ok ==> forall k K :: k != key ==> (k in w.theMap) == old(k in w.theMap) && w.theMap[k] == old(w.theMap[k])
+
+// Wrap / Unwrap change the parent link only
+//@ func (w *WrapMap[K, V]) Wrap(m Map[K, V]) (r Map[K, V])
+//@   property C14
+//@   modifies w.parent
+//@   ensures w != nil ==> r == iface(w) && w.parent == m
+//@   ensures w == nil ==> r == nil
+
+//@ func (w *WrapMap[K, V]) Unwrap() (r Map[K, V])
+//@   property C14
+//@   modifies w.parent
+//@   ensures w != nil ==> r == old(w.parent) && w.parent == nil
+//@   ensures w == nil ==> r == nil
+
+// Flattened: children override parents, at every level. mergo.Merge(&dst, src, WithOverride) on two maps is assumed to
+// leave in dst the union of the two with src's entries winning (a nil dst is replaced by a new map); nothing else is
+// assumed about it.
+//@ func (w *WrapMap[K, V]) Flattened() (r map[K]V, err error)
+//@   property C14
+//@   modifies nothing
+//@   ghostvar pd map[K]bool = empty
+//@   ghostvar pv map[K]V = empty
+//@   ghostvar ofp *V = nil
+//@   on call mergo.Merge : pd = dom(flattenedParent) ; pv = vals(flattenedParent) ; ofp = flattenedParent
+//@   on aftercall mergo.Merge : havoc local(flattenedParent) ; assume (ofp != nil ==> flattenedParent == ofp) && (ofp == nil ==> fresh(flattenedParent) && flattenedParent != thisMapCopy) ; havoc entries(flattenedParent) ; assume result == nil ==> flattenedParent != nil && (forall k K :: (k in flattenedParent) == (pd[k] || (k in thisMapCopy))) && (forall k K :: (k in thisMapCopy) ==> flattenedParent[k] == thisMapCopy[k]) && (forall k K :: pd[k] && !(k in thisMapCopy) ==> flattenedParent[k] == pv[k])
+//@   loop 1 invariant fresh(thisMapCopy) && forall k K :: #visited[k] ==> (k in thisMapCopy) && thisMapCopy[k] == w.theMap[k]
+//@   loop 1 invariant forall k K :: (k in thisMapCopy) ==> (k in w.theMap) && thisMapCopy[k] == w.theMap[k]
+//@   ensures r != nil ==> fresh(r)
+//@   ensures err == nil ==> forall k K :: old(flatHas(iface(w), k)) ==> (k in r)
+//@   ensures err == nil ==> forall k K :: (k in r) ==> old(flatHas(iface(w), k))
+//@   ensures err == nil ==> forall k K :: (k in r) ==> r[k] == old(flatVal(iface(w), k))
